@@ -12,6 +12,7 @@ import (
 	"os"
 	"strings"
 	"time"
+	"verifharness/internal/tk"
 
 	"gitee.com/Trisia/gotlcp/dtlcp"
 	"gitee.com/Trisia/gotlcp/tlcp"
@@ -53,6 +54,9 @@ func (t *dSess) id() uint64   { return t.n }
 func (t *dSess) intact() bool { return bytes.Equal(t.s.VerifMaster(), t.want) }
 
 func masterFor(n uint64) []byte {
+	if n%5 == 4 { // every fifth value is a session without a master secret: the cache stores whatever non-nil value it is given
+		return []byte{}
+	}
 	m := make([]byte, 48)
 	for i := range m {
 		m[i] = byte(n*7 + uint64(i) + 1)
@@ -322,6 +326,44 @@ func c11Enumerate(depth int, cur []c11Op, next uint64, f func([]c11Op)) {
 	c11Enumerate(depth, append(cur, c11Op{Kind: "get", Key: 0}), next, f)
 }
 
+type c11HonestIn struct {
+	Stack string     `json:"stack"`
+	CCap  int        `json:"ccap"`
+	SCap  int        `json:"scap"`
+	Conns [][]uint16 `json:"conns"` // per connection: the one suite list both ends are configured with (same caches throughout)
+}
+
+// c11Honest: a cache of any capacity never makes a later honest handshake fail.  The same client and server caches
+// serve a sequence of honest connections whose configurations change in between (another suite, so that an offered
+// session must be declined, or the same again); every connection must complete on both sides and carry data.
+func c11Honest(out *emit.Out, in c11HonestIn) {
+	reg := tk.NewRegistry()
+	direct := ""
+	var resumed []bool
+	for i, su := range in.Conns {
+		cc := tk.EPConfig{Suites: su, Ident: "cli", ServerName: "server.test", Cache: "c", CacheCap: in.CCap, PMTU: 4000}
+		sc := tk.EPConfig{Suites: su, Ident: "srv", Cache: "s", CacheCap: in.SCap, Auth: 4, PMTU: 4000}
+		var cr, sr tk.EPResult
+		var hung bool
+		if in.Stack == "tlcp" {
+			tp := tk.NewTPair(tk.BuildTLCP(cc, reg), tk.BuildTLCP(sc, reg))
+			cr, sr, hung = tp.Handshake(10 * time.Second)
+			tp.Cli.Close()
+			tp.Srv.Close()
+		} else {
+			dp := tk.NewDPair(tk.BuildDTLCP(cc, reg), tk.BuildDTLCP(sc, reg))
+			cr, sr, hung = dp.Handshake(10 * time.Second)
+		}
+		resumed = append(resumed, cr.Resumed)
+		if hung || cr.Err != "" || sr.Err != "" || !cr.Complete || !sr.Complete {
+			direct = fmt.Sprintf("honest connection %d through the caches failed: client %q %s / server %q %s", i+1, cr.Err, cr.ErrText, sr.Err, sr.ErrText)
+			break
+		}
+	}
+	out.Add(emit.Case{Scenario: "honest-handshakes-through-caches/" + in.Stack, Trivial: false, Input: in, Direct: direct,
+		Observed: map[string]interface{}{"resumed": resumed}})
+}
+
 func runC11(p params) error {
 	out := emit.New(p.out, "C11", "V.Corr.Run_C11", "case",
 		"operation sequences (put fresh / put aliased object / delete / get, keys k1..k3 and \"\") on NewLRUSessionCache of both stacks; non-trivial = has a Put and a Get and length>=3; distinct by Coq term")
@@ -392,6 +434,18 @@ func runC11(p params) error {
 		c11AddCase(out, "random-long", c11Input{st, cap, c11GenSeq(r, 60+r.IntN(140), 4+r.IntN(80), &next)})
 	}
 	c11ConcGen(out, p, r)
+	// honest connections through caches of every capacity, reconfigured in between
+	for _, st := range []string{"tlcp", "dtlcp"} {
+		for _, caps := range [][2]int{{1, 1}, {2, 2}, {64, 64}, {0, 0}} {
+			for _, conns := range [][][]uint16{
+				{{0xe013}, {0xe053}, {0xe053}, {0xe013}},
+				{{0xe053}, {0xe053}, {0xe011}, {0xe011}, {0xe053}},
+				{{0xe051}, {0xe013}, {0xe051}},
+			} {
+				c11Honest(out, c11HonestIn{Stack: st, CCap: caps[0], SCap: caps[1], Conns: conns})
+			}
+		}
+	}
 	return out.Finish()
 }
 
